@@ -6,7 +6,7 @@
     multifit: its float capacity search is modelled bit-exactly (Model/Multifit.v, binary64 as dyadic rationals); it may return fewer bins, never more.
     ilp: the decoding of a solver answer is a partition (Properties/C17); judged per input here.
     Statements only; proofs in Proofs/{Greedy,KK,CG,DP,CBLDM,SNP}Proofs.v. *)
-From Prtpy Require Import Base.Prelude Model.Binner Model.Objectives Model.Greedy Model.KK Model.CG Model.DP Model.CBLDM Model.SNP Spec.Partition Proofs.GreedyProofs Proofs.KKProofs Proofs.CGProofs Proofs.DPProofs Proofs.CBLDMProofs Proofs.SNPProofs Model.Multifit Proofs.MultifitProofs Proofs.RNPProofs Model.Balanced Proofs.BalancedProofs.
+From Prtpy Require Import Base.Prelude Model.Binner Model.Objectives Model.Greedy Model.KK Model.CG Model.DP Model.CBLDM Model.SNP Spec.Partition Proofs.GreedyProofs Proofs.KKProofs Proofs.CGProofs Proofs.DPProofs Proofs.CBLDMProofs Proofs.SNPProofs Model.Multifit Proofs.MultifitProofs Proofs.RNPProofs Model.Balanced Proofs.BalancedProofs Oracle.Checkers Proofs.CheckersSpec.
 
 (** greedy / LPT *)
 Theorem C01_greedy_partition :
@@ -162,4 +162,12 @@ Theorem C01_rnp_total :
   exists b : bins A, rnp valueof nameof true k items = Ok b.
 Proof. exact @rnp_total_le5. Qed.
 Print Assumptions C01_rnp_total.
+
+(** the boolean checker that judges the IMPLEMENTATION's partitions (extracted; items are (name, value) pairs in which a name determines the item) decides exactly the specification is_partition *)
+Theorem C01_checker_is_partition :
+  forall (k : nat) (items : list citem) (b : bins citem),
+  names_det (contents b ++ items) ->
+  is_partition_b k items b = true <-> is_partition cval k items b.
+Proof. exact @is_partition_b_spec. Qed.
+Print Assumptions C01_checker_is_partition.
 
